@@ -544,12 +544,46 @@ fn arb_cmd() -> impl Strategy<Value = Cmd> {
     })
 }
 
+/// Short command sequences for situations that independent random commands rarely line up:
+/// several failing components under `pipefail`, and statuses asked for after `wait` has already
+/// collected (and forgotten) the jobs, or asked for twice.
+fn arb_scenario() -> impl Strategy<Value = Vec<Cmd>> {
+    let st_list = |n: u8| Stage::List(vec![Cmd::St(n)]);
+    prop_oneof![
+        // set -o pipefail; st a | st b | st c [| st d]; mark
+        (prop::collection::vec(0u8..4, 2..5), any::<bool>()).prop_map(move |(sts, off)| {
+            let mut v = vec![Cmd::Pipefail(true), Cmd::Pipe(sts.iter().map(|n| st_list(*n)).collect()), Cmd::Mark(0)];
+            if off {
+                v.push(Cmd::Pipefail(false));
+            }
+            v
+        }),
+        // two or three background jobs, `wait`, then their statuses asked for by pid: 127
+        (prop::collection::vec(0u8..4, 1..4), 0u8..3, 0u8..3).prop_map(|(sts, k, j)| {
+            let mut v: Vec<Cmd> = sts.iter().map(|n| Cmd::Bg(vec![Cmd::St(*n)])).collect();
+            v.extend([Cmd::Wait, Cmd::WaitPid(k), Cmd::Mark(0), Cmd::WaitPid(j), Cmd::Mark(0)]);
+            v
+        }),
+        // a status asked for twice, and several operands' worth of waits in a row
+        (prop::collection::vec(1u8..4, 1..4), 0u8..3).prop_map(|(sts, k)| {
+            let mut v: Vec<Cmd> = sts.iter().map(|n| Cmd::Bg(vec![Cmd::Mark(0), Cmd::St(*n)])).collect();
+            v.extend([Cmd::WaitPid(k), Cmd::Mark(0), Cmd::WaitPid(k), Cmd::Mark(0), Cmd::WaitPid(k + 1), Cmd::Mark(0), Cmd::Wait, Cmd::Mark(0)]);
+            v
+        }),
+    ]
+}
+
 fn arb_sched_case() -> impl Strategy<Value = SchedCase> {
-    (prop::collection::vec(arb_cmd(), 1..5), prop::collection::vec(any::<u64>(), 4..5)).prop_map(|(prog, seeds)| SchedCase { prog, seeds })
+    let part = prop_oneof![
+        5 => arb_cmd().prop_map(|c| vec![c]),
+        2 => arb_scenario(),
+    ];
+    (prop::collection::vec(part, 1..5), prop::collection::vec(any::<u64>(), 4..5))
+        .prop_map(|(parts, seeds)| SchedCase { prog: parts.into_iter().flatten().collect(), seeds })
 }
 
 pub fn run(ctx: &Ctx, st: &mut Stats) {
-    let n = ctx.tier.pick(8_000, 150_000);
+    let n = ctx.tier.pick(20_000, 300_000);
     SCHED.run_random(ctx, st, n, arb_sched_case);
     st.extra.insert("schedules_run".into(), serde_json::json!(SCHEDULES_RUN.load(std::sync::atomic::Ordering::Relaxed)));
     st.extra.insert("schedules_differing_from_fifo".into(), serde_json::json!(SCHEDULES_NONFIFO.load(std::sync::atomic::Ordering::Relaxed)));
